@@ -632,6 +632,28 @@ def alphabet(thorough):
             it = G.tree_model("gate[%s]" % gname, (-1, 0), ("hinge", "slide") if gi % 2 else ("free", "hinge"), o, tendon=True,
                               actuators=1, sensors=1, **kw)
         add(it, desc)
+    # medium: passive fluid forces (inertia-box model, the one fluid model MJX implements) as a lattice
+    # {density, viscosity, wind} over forests whose inertial frames are rotated against the world (geom quat + body quat +
+    # joint rotation), with roots that spin (free / ball) and children offset from the tree's centre of mass.
+    # Euler / RK4 must be accepted and reproduced; implicitfast + medium is a documented NotImplementedError (counted).
+    media = [("density+viscosity+wind", 'density="1.2" viscosity="0.03" wind="3 -2 1"'),
+             ("density+viscosity", 'density="1.2" viscosity="0.03"'),
+             ("density+wind", 'density="1.3" wind="-1.5 2.5 0.5"'),
+             ("viscosity+wind", 'viscosity="0.05" wind="0.5 1 -2"'),
+             ("wind-only", 'wind="2 1 -1"')]
+    mtrees = [((-1, 0), ("free", "hinge")), ((-1, -1), ("ball", "slidehinge")), ((-1, 0), ("hinge", "ball"))]
+    if thorough:
+        mcases = [(mi, ti, (mi + ti) % 2) for mi in range(len(media)) for ti in range(len(mtrees))] + [(0, 0, 2)]
+    else:
+        mcases = [(0, 0, 0), (1, 1, 1)]     # covering subset: {wind, still} x {Euler, RK4} x {free root, ball root + sibling}
+    for mi, ti, ii in mcases:
+        integ = ["Euler", "RK4", "implicitfast"][ii]
+        par, js = mtrees[ti]
+        o = G.option(integrator=integ, solver="Newton", cone="pyramidal", jacobian=["dense", "sparse"][(mi + ti) % 2], extra=media[mi][1])
+        it = G.tree_model("medium[%s;%s]" % (media[mi][0], ",".join(js)), par, js, o, tendon=True, gravcomp=bool(ti % 2),
+                          actuators=1, sensors=1)
+        it["must_accept"] = integ != "implicitfast"
+        add(it, (integ, "Newton", "pyramidal", ["dense", "sparse"][(mi + ti) % 2], media[mi][0]))
     o, desc = opt("iter")
     it = G.contact_model("contact[plane-iter]", o, plane_pairs[3:], condim=3)
     it["iterative"] = True
